@@ -1,0 +1,23 @@
+//! Pause points for external verification harnesses.
+//!
+//! Only compiled with the `__verif` cargo feature; with the feature off this
+//! module does not exist and no call to it is compiled.
+
+use std::sync::{Arc, RwLock};
+
+type Hook = Arc<dyn Fn(&'static str) + Send + Sync>;
+
+static HOOK: RwLock<Option<Hook>> = RwLock::new(None);
+
+/// Install (or remove, with `None`) the process-wide hook.
+pub fn set_hook(hook: Option<Hook>) {
+    *HOOK.write().unwrap_or_else(|e| e.into_inner()) = hook;
+}
+
+/// Called by the library at the named pause points.
+pub fn point(name: &'static str) {
+    let hook = HOOK.read().unwrap_or_else(|e| e.into_inner()).clone();
+    if let Some(hook) = hook {
+        hook(name);
+    }
+}
